@@ -98,11 +98,12 @@ func decodeKinds(format string, data []byte, kind int) outcome {
 		return decodeHere(format, data, kind)
 	}
 	first := decodeHere(format, data, kinds[0])
-	total, totalCPU := first.Micros, first.CpuUs
+	total, totalCPU, totalSys := first.Micros, first.CpuUs, first.SysUs
 	for _, k := range kinds[1:] {
 		o := decodeHere(format, data, k)
 		total += o.Micros
 		totalCPU += o.CpuUs
+		totalSys += o.SysUs
 		if sameObservables(first, o) {
 			continue
 		}
@@ -138,6 +139,7 @@ type outcome struct {
 	Pts     string   `json:"pts,omitempty"`     // pts: the result as a Coq term of type pts_result
 	Micros  int64    `json:"us"`                // decode wall time measured inside the child
 	CpuUs   int64    `json:"cpu_us"`            // CPU time (user+system, whole process) of the decode: robust to machine load
+	SysUs   int64    `json:"sys_us"`            // system time of the decode (reported, not judged)
 	Over    bool     `json:"-"`                 // parent only: the CPU budget was used up without an answer
 	Starved bool     `json:"-"`                 // parent only: no answer within the wall limit although the CPU budget was not used up
 	PeakMB  int64    `json:"peak_mb,omitempty"` // filled in by the parent for hostile cases
@@ -293,12 +295,21 @@ var customPly = ply.MeshReader{
 	},
 }
 
+// user CPU time of this process so far (system time is charged with the kernel's work under memory pressure and is
+// left out of the judgement; it is reported separately)
 func selfCPU() int64 {
 	var ru syscall.Rusage
 	if syscall.Getrusage(syscall.RUSAGE_SELF, &ru) != nil {
 		return 0
 	}
-	return (ru.Utime.Sec+ru.Stime.Sec)*1e6 + int64(ru.Utime.Usec+ru.Stime.Usec)
+	return ru.Utime.Sec*1e6 + int64(ru.Utime.Usec)
+}
+func selfSys() int64 {
+	var ru syscall.Rusage
+	if syscall.Getrusage(syscall.RUSAGE_SELF, &ru) != nil {
+		return 0
+	}
+	return ru.Stime.Sec*1e6 + int64(ru.Stime.Usec)
 }
 
 var tmpSeq int
@@ -317,7 +328,7 @@ func writeTemp(data []byte) (string, error) {
 // decodeHere runs the real decoder in this process under recover().
 func decodeHere(format string, data []byte, kind int) (o outcome) {
 	t0 := time.Now()
-	c0 := selfCPU()
+	c0, s0 := selfCPU(), selfSys()
 	var tmpPath string
 	defer func() {
 		if rec := recover(); rec != nil {
@@ -332,6 +343,7 @@ func decodeHere(format string, data []byte, kind int) (o outcome) {
 		}
 		o.Micros = time.Since(t0).Microseconds()
 		o.CpuUs = selfCPU() - c0
+		o.SysUs = selfSys() - s0
 		if len(o.Msg) > 200 {
 			o.Msg = o.Msg[:200]
 		}
